@@ -34,6 +34,13 @@ def main():
             continue  # delivered but not kept (not confirmed, or its behaviour-preserving part is not silent)
         if os.path.exists(pf) and (not seeds or sid in seeds):
             items.append((sid, pf))
+    # (the staging directories are scratch: without them the patches kept under /verif/seeded are used)
+    have = {sid for sid, _pf in items}
+    for d in sorted(glob.glob("/verif/seeded/*/")):
+        sid = os.path.basename(d.rstrip("/"))
+        pf = os.path.join(d, "patch.diff")
+        if sid not in have and os.path.exists(pf) and os.path.exists(os.path.join(d, "confirm.json")) and (not seeds or sid in seeds):
+            items.append((sid, pf))
     out = {}
     mp = "/verif/seeded/matrix.json"
     if os.path.exists(mp):
